@@ -2,6 +2,12 @@
 
 package model
 
+import (
+	"bytes"
+
+	"github.com/richardmorrey/flap/pkg/flap"
+)
+
 // Verification hooks: exported access to unexported internals for the
 // correspondence harness in /verif.  Compiled only with -tags verif.
 
@@ -36,4 +42,73 @@ func (v *VerifWeights) Scale() [][2]int64 {
 		out = append(out, [2]int64{int64(e.I), int64(e.W)})
 	}
 	return out
+}
+
+// ---- codecs of the model's records (C13) ----
+
+// VerifJourney is a plain copy of a journey.
+type VerifJourney struct {
+	Jt     uint8
+	Flight flap.Flight
+	Length flap.Days
+}
+
+func verifToJourney(v VerifJourney) journey {
+	return journey{jt: journeyType(v.Jt), flight: v.Flight, length: v.Length}
+}
+func verifFromJourney(j journey) VerifJourney {
+	return VerifJourney{Jt: uint8(j.jt), Flight: j.flight, Length: j.length}
+}
+
+func VerifJourneyTo(v VerifJourney, b *bytes.Buffer) error { j := verifToJourney(v); return j.To(b) }
+func VerifJourneyFrom(b *bytes.Buffer) (VerifJourney, error) {
+	var j journey
+	err := j.From(b)
+	return verifFromJourney(j), err
+}
+func VerifPlannerDayTo(vs []VerifJourney, b *bytes.Buffer) error {
+	var pd plannerDay
+	for _, v := range vs {
+		pd.journies = append(pd.journies, verifToJourney(v))
+	}
+	return pd.To(b)
+}
+func VerifPlannerDayFrom(b *bytes.Buffer) ([]VerifJourney, error) {
+	var pd plannerDay
+	err := pd.From(b)
+	var out []VerifJourney
+	for _, j := range pd.journies {
+		out = append(out, verifFromJourney(j))
+	}
+	return out, err
+}
+
+// VerifModelState is a plain copy of modelState.
+type VerifModelState struct {
+	TotalDayOne              float64
+	TravellersForMinGrounded float64
+	TotalTravellersCurrent   uint64
+	StartDate                flap.EpochTime
+}
+
+func VerifModelStateTo(v VerifModelState, b *bytes.Buffer) error {
+	s := modelState{totalDayOne: v.TotalDayOne, travellersForMinGrounded: v.TravellersForMinGrounded, totalTravellersCurrent: v.TotalTravellersCurrent, startDate: v.StartDate}
+	return s.To(b)
+}
+func VerifModelStateFrom(b *bytes.Buffer) (VerifModelState, error) {
+	var s modelState
+	err := s.From(b)
+	return VerifModelState{TotalDayOne: s.totalDayOne, TravellersForMinGrounded: s.travellersForMinGrounded, TotalTravellersCurrent: s.totalTravellersCurrent, StartDate: s.startDate}, err
+}
+
+// gob-encoded records: round trip helpers
+func VerifCountryRoundTrip(c Country) (Country, []byte, error) {
+	var b bytes.Buffer
+	if err := c.To(&b); err != nil {
+		return Country{}, nil, err
+	}
+	raw := append([]byte(nil), b.Bytes()...)
+	var out Country
+	err := out.From(&b)
+	return out, raw, err
 }
